@@ -157,9 +157,10 @@ Theorem C07_time_constants :
 Proof. exact pow_constants. Qed.
 Print Assumptions C07_time_constants.
 
-(* non-vacuity: mainnet is in the list; the genesis target is valid; a retarget with exactly two
-   weeks keeps it, with one hour quarters... no: divides by 4, with a year multiplies by 4 capped at
-   the limit; the transition is permitted and a doubled target at a non-boundary height is not *)
+(* non-vacuity: mainnet is in the list; the genesis target is valid; a retarget after exactly two
+   weeks keeps it, after one hour divides the target by 4, after three years multiplies it by 4, capped
+   at powLimit; the quartered target is a permitted transition, one ulp below it is not, and any
+   change off a retarget height is not *)
 Example C07_nonvacuous :
   In chain_main all_chains /\
   derive_target 0x1d00ffff (cp_pow_limit chain_main) = Some (0xffff * 256 ^ 26) /\
